@@ -43,6 +43,8 @@ pub enum Op {
     Resubmit(usize),
     /// try to create a worker coroutine with an unsatisfiable stack size
     SubmitCoBad(usize),
+    /// hand a plain coroutine (not a task) to the pool through the public submit_co
+    SubmitCo(usize),
 }
 
 fn is_submit(o: &Op) -> bool {
@@ -62,6 +64,7 @@ impl Op {
             Op::Clean(t) => json!(format!("clean(T{t})")),
             Op::Resubmit(t) => json!(format!("resubmit-name-of(T{t})")),
             Op::SubmitCoBad(p) => json!(format!("submit_co-huge-stack(P{p})")),
+            Op::SubmitCo(p) => json!(format!("submit_co(P{p})")),
         }
     }
     pub fn from_json(v: &Value) -> Option<Op> {
@@ -100,6 +103,9 @@ impl Op {
         if let Some(r) = inner("submit_co-huge-stack(P") {
             return Some(Op::SubmitCoBad(r.parse().ok()?));
         }
+        if let Some(r) = inner("submit_co(P") {
+            return Some(Op::SubmitCo(r.parse().ok()?));
+        }
         None
     }
 }
@@ -124,7 +130,7 @@ impl Cfg {
             "priorities": self.prios, "max_tasks": self.max_tasks, "ops": self.ops, "depth": self.depth})
     }
     pub fn from_json(v: &Value) -> Option<Cfg> {
-        let ops_all = ["submit", "pass", "adv", "cancel", "wait", "join", "stop", "clean", "resubmit", "cobad"];
+        let ops_all = ["submit", "pass", "adv", "cancel", "wait", "join", "stop", "clean", "resubmit", "cobad", "co"];
         Some(Cfg {
             name: v.get("name")?.as_str()?.to_string(),
             pools: v.get("pools")?.as_array()?.iter().map(|p| Some((p.get("min")?.as_u64()? as usize, p.get("max")?.as_u64()? as usize, p.get("keep_alive_ns")?.as_u64()?))).collect::<Option<Vec<_>>>()?,
@@ -193,6 +199,13 @@ impl Cfg {
             for p in 0..np {
                 if !hist.contains(&Op::SubmitCoBad(p)) {
                     v.push(Op::SubmitCoBad(p));
+                }
+            }
+        }
+        if self.ops.contains(&"co") {
+            for p in 0..np {
+                if hist.iter().filter(|o| **o == Op::SubmitCo(p)).count() < 2 {
+                    v.push(Op::SubmitCo(p));
                 }
             }
         }
@@ -400,11 +413,11 @@ pub fn run_history(cfg: &Cfg, hist: &[Op], emit_at: Option<&mut Emitter>) -> Out
                             step(1);
                         }
                         "JoinNext" => {
-                            // the task submitted last (other tasks are queued ahead of it)
+                            // the task submitted right after this one (one joiner per task: the public
+                            // JoinHandle is unique, two waits for one result are caller misuse)
                             let target = {
                                 let s = shc.lock().unwrap();
-                                let last = s.ids.len() - 1;
-                                s.ids.get(last).copied().filter(|id| *id != 0 && last != t).map(|id| (last, id))
+                                s.ids.get(t + 1).copied().filter(|id| *id != 0).map(|id| (t + 1, id))
                             };
                             if let Some((tt, id)) = target {
                                 let pool = CoroutinePool::current().expect("current pool");
@@ -555,6 +568,19 @@ pub fn run_history(cfg: &Cfg, hist: &[Op], emit_at: Option<&mut Emitter>) -> Out
                 }
                 witnesses.push("worker_creation_failure_injected");
             }
+            Op::SubmitCo(p) => {
+                // a coroutine that parks once and ends; refused (Err) when the pool is full
+                let before = pools[*p].get_running_size();
+                let r = pools[*p].submit_co(|s, ()| {
+                    s.suspend();
+                    Some(0)
+                }, None, None);
+                let after = pools[*p].get_running_size();
+                if r.is_err() && after != before {
+                    push(&mut viols, "C11", "running-size-counts-live-workers", "refused-coroutine", at(format!("submit_co was refused ({:?}) yet the running size went from {before} to {after}", r.as_ref().err().map(std::io::Error::kind))));
+                }
+                witnesses.push(if r.is_ok() { "direct_coroutine_accepted" } else { "direct_coroutine_refused" });
+            }
             Op::Stop(p) => {
                 stopped_once[*p] = true;
                 cur_pool.store(*p as u64, Ordering::SeqCst);
@@ -594,6 +620,17 @@ pub fn run_history(cfg: &Cfg, hist: &[Op], emit_at: Option<&mut Emitter>) -> Out
                     }
                     if pools[*p].get_running_size() != 0 {
                         push(&mut viols, "C11", "running-size-zero-after-stop", "-", at(format!("stop() returned Ok but the pool still reports {} running workers", pools[*p].get_running_size())));
+                    }
+                } else {
+                    // C11: with all work done or cancelled there is nothing a stop could be waiting for
+                    let (started, finished) = {
+                        let s = sh.lock().unwrap();
+                        (s.started.clone(), s.finished.clone())
+                    };
+                    let all_settled = tasks.iter().enumerate().all(|(t, ti)| !ti.accepted || ti.pool != *p || finished[t] || ti.cancelled || (started[t] > 0 && expected_result(ti.prog).is_err()));
+                    let direct = hist[..=k].iter().any(|o| *o == Op::SubmitCo(*p));
+                    if all_settled && !direct {
+                        push(&mut viols, "C11", "stop-prompt-when-work-done", "stop-failed", at(format!("all tasks of the pool had finished or been cancelled, yet stop() failed with {:?} after {elapsed}ns (running size {}): idle workers kept it waiting", r.as_ref().err().map(std::io::Error::kind), pools[*p].get_running_size())));
                     }
                 }
             }
@@ -718,6 +755,21 @@ fn drive(cfg: &Cfg, pools: &mut [CoroutinePool<'static>], sh: &Arc<Mutex<Shared>
             if idle >= 12 || !busy {
                 break;
             }
+        }
+    }
+    // idle workers may legitimately linger for the pool's keep-alive time: let it pass as well
+    let ka = cfg.pools.iter().map(|p| p.2).max().unwrap_or(0);
+    if ka > 200 * MS {
+        open_coroutine_core::verif::clock_set(now() + ka);
+        for _ in 0..4 {
+            for q in 0..pools.len() {
+                if cfg.pools[q].0 == 0 && pools[q].state() != PoolState::Stopped {
+                    cur_pool.store(q as u64, Ordering::SeqCst);
+                    let _ = pools[q].try_timed_schedule_task(Duration::from_millis(2));
+                    cur_pool.store(u64::MAX, Ordering::SeqCst);
+                }
+            }
+            open_coroutine_core::verif::clock_set(now() + 20 * MS);
         }
     }
 }
@@ -970,6 +1022,10 @@ pub fn configs(scen: &str, tier: &str) -> Vec<Cfg> {
             v.push(all("max2", vec![(0, 2, 0)], 4, &["Return", "Suspend", "Delay5", "CancelPrev"], &[0], d(3, 3), &["submit", "pass", "adv", "cancel", "stop", "cobad"], d(5, 6)));
             v.push(all("min1", vec![(1, 2, 0)], 4, &["Return", "Delay5", "Panic"], &[0], d(2, 3), &["submit", "cancel", "stop"], d(4, 5)));
             v.push(all("keepalive", vec![(0, 2, 5 * MS)], 4, &["Return", "Suspend", "Delay5"], &[0], d(2, 3), &["submit", "pass", "adv", "cancel", "stop"], d(5, 6)));
+            // a keep-alive longer than any stop timeout: idle workers must still leave a stopping pool
+            v.push(all("keepalive-long", vec![(0, 2, 3000 * MS)], 4, &["Return", "Delay5"], &[0], d(2, 3), &["submit", "pass", "adv", "stop"], d(4, 5)));
+            // plain coroutines handed in through submit_co count against the maximum too
+            v.push(all("direct-coroutines", vec![(0, 2, 0)], 4, &["Return", "Delay5"], &[0], d(2, 2), &["submit", "pass", "adv", "co", "stop"], d(5, 6)));
         }
         // C12: lifecycle
         "pool.c12" => {
